@@ -148,8 +148,8 @@ open Sqfs.FragDedup
 /-! ## Fragments
 
 `h` is the checksum function, `codec` any codec with the round-trip contract, `maxBlock` the block size; `evs`
-ranges over all scripts: fragments (any bytes, any user flags, except an all-zero fragment marked `nosparse` —
-D24/C17) interleaved arbitrarily with "fragment block `k` has reached the disk" and `finish`.  Scripts the pool
+ranges over all scripts: fragments (any non-empty bytes, any user flags — all-zero tail ends marked `nosparse`
+included, since /repo 47f7b3d a fragment block is never taken for a hole) interleaved arbitrarily with "fragment block `k` has reached the disk" and `finish`.  Scripts the pool
 cannot produce (writing a block that is not in flight) make the model answer `badEvent`; nothing else can go
 wrong (`frag_no_error`).  `byteCompare = true` is how `lib/common/src/writer/init.c` configures the
 processor (`file` and `uncmp` given). -/
@@ -178,15 +178,17 @@ theorem frag_sound (codec : Codec) (hrt : codec.RoundTrip) (h : Bytes → UInt32
     exact fragSound_of_ResAll codec st hinv evs rs hres
   · rw [herr] at hrun; cases hrun
 
-/-- **Equal fragments share.** After any history, a fragment whose bytes were stored before (under the same
-checksum, i.e. with the same `DONT_HASH` setting) and that does not carry `DONT_DEDUPLICATE` is answered with a
-location and stores nothing: the fragment blocks are unchanged. -/
+/-- **Equal fragments share.** After any history, a fragment whose bytes were stored before under the same key —
+same checksum (i.e. same `DONT_HASH` setting) and same `DONT_COMPRESS` flag, which is part of the lookup key
+since /repo fcd11e4 so that a `dont_compress` tail end never lands in a block that gets compressed — and that
+does not carry `DONT_DEDUPLICATE` is answered with a location and stores nothing: the fragment blocks are
+unchanged. -/
 theorem frag_share (codec : Codec) (hrt : codec.RoundTrip) (h : Bytes → UInt32) (maxBlock : Nat)
     (evs : List Ev) (hok : evsOk evs) (rs : List (Option Res)) (st : State)
     (hrun : run codec h true maxBlock {} evs = .ok (rs, st))
     (d : Bytes) (flags : Nat) (hd : fragOk d flags) (hns : isSparse d flags = false)
     (hdd : hasFlag flags Sqfs.Consts.blkDontDeduplicate = false)
-    (hseen : (d, fragHash h d flags) ∈ seenOf h evs) :
+    (hseen : (d, fragHash h d flags, flags &&& Sqfs.Consts.blkDontCompress) ∈ seenOf h evs) :
     ∃ i o st', processFragment codec h true maxBlock st d flags = .ok (.loc i o, st') ∧
       st'.blocks = st.blocks := by
   rcases run_spec codec hrt h maxBlock evs {} [] (Inv_init codec) (fun p hp => by cases hp) hok with
@@ -202,19 +204,19 @@ theorem frag_share (codec : Codec) (hrt : codec.RoundTrip) (h : Bytes → UInt32
 
 /-- **The hash table's probe order does not matter.** `lib/util/src/hash_table.c` probes entries of equal hash in
 an order that depends on the table size and on past rehashes; the model searches a list front to back.  At any
-point of any run no two table entries hold the same bytes under the same checksum (inserting replaces an equal
-entry), so at most one entry can match a fragment, and searching any permutation of the table gives the same
-answer. -/
+point of any run no two table entries hold the same bytes under the same key (checksum and `DONT_COMPRESS`
+flag; inserting replaces an equal entry), so at most one entry can match a fragment, and searching any
+permutation of the table gives the same answer. -/
 theorem frag_lookup_unique (codec : Codec) (hrt : codec.RoundTrip) (h : Bytes → UInt32) (maxBlock : Nat)
     (evs : List Ev) (hok : evsOk evs) (rs : List (Option Res)) (st : State)
-    (hrun : run codec h true maxBlock {} evs = .ok (rs, st)) (d : Bytes) (hd : UInt32) (l : List Chunk)
+    (hrun : run codec h true maxBlock {} evs = .ok (rs, st)) (d : Bytes) (hd : UInt32) (kf : Nat) (l : List Chunk)
     (hp : l.Perm st.table) :
-    ∃ r s1 s2, search codec true st d hd st.table = .ok (r, s1) ∧ search codec true st d hd l = .ok (r, s2) := by
+    ∃ r s1 s2, search codec true st d hd kf st.table = .ok (r, s1) ∧ search codec true st d hd kf l = .ok (r, s2) := by
   have hu := run_uniq codec hrt h maxBlock evs {} (Inv_init codec) Uniq_init hok rs st hrun
   rcases run_spec codec hrt h maxBlock evs {} [] (Inv_init codec) (fun p hp => by cases hp) hok with
     ⟨rs', st', hr, hinv, _⟩ | herr
   · rw [hr] at hrun; cases hrun
-    exact search_perm codec st hinv hu d hd l hp
+    exact search_perm codec st hinv hu d hd kf l hp
   · rw [herr] at hrun; cases hrun
 
 /-! ### non-vacuity: different 3-byte fragments under a *constant* checksum, block size 8, and a codec that really
@@ -239,6 +241,25 @@ example : evsOk exEvs := by
 example : ((run (Sqfs.ToyCodec.codec 8) (fun _ => 0) true 8 {} exEvs).toOption.map (·.1)) =
     some [some (.loc 0 0), some (.loc 0 3), some (.loc 0 0), some (.loc 1 0), some (.loc 0 3), none,
           some (.loc 0 0), some .sparse, none, none] := by decide
+
+/-- all-zero tail ends marked `nosparse` are ordinary fragments now: stored, shared, written and read back -/
+example :
+    let evs : List Ev := [.frag [0, 0, 0] Sqfs.Consts.blkIgnoreSparse, .frag [0, 0, 0] Sqfs.Consts.blkIgnoreSparse,
+                          .finish, .written 0]
+    evsOk evs ∧
+    ((run (Sqfs.ToyCodec.codec 8) (fun _ => 0) true 8 {} evs).toOption.map
+        (fun r => (r.1, readBlock (Sqfs.ToyCodec.codec 8) r.2 0))) =
+      some ([some (.loc 0 0), some (.loc 0 0), none, none], some [0, 0, 0]) := by
+  refine ⟨?_, by decide⟩
+  intro e he
+  simp at he
+  rcases he with rfl | rfl | rfl | rfl <;> simp [Ev.ok, fragOk]
+
+/-- a `dont_compress` tail end does not share the slot of its compressible twin (the flag is part of the key) -/
+example :
+    ((run Sqfs.ToyCodec.ident (fun _ => 0) true 8 {} [.frag [1, 2, 3] 0, .frag [1, 2, 3] Sqfs.Consts.blkDontCompress,
+        .frag [1, 2, 3] Sqfs.Consts.blkDontCompress]).toOption.map (·.1)) =
+      some [some (.loc 0 0), some (.loc 0 3), some (.loc 0 3)] := by decide
 
 /-- Likewise for fragments: in the documented "size and hash alone" configuration (`file`/`uncmp` = NULL,
 `byteCompare = false`) the second, different fragment is answered with the first one's location. -/
